@@ -52,7 +52,7 @@ def model(rep, t):
             if R >= 4 and label not in ('all', 'odd', 'only-last (first selected row late)'):
                 continue
             cfg = tlc.write_cfg(os.path.join(wd, 'p_%d_%d_%s.cfg' % (R, N, len(sel))), spec='FairSpec',
-                                constants={'R': R, 'N': N, 'Sel': tla_set(sel)},
+                                constants={'R': R, 'N': N, 'Sel': tla_set(sel), 'Fail': tla_set(sel[:1]) if (R + N) % 3 == 0 else '{}'},
                                 invariants=['ExactlyOnce', 'AtMostOnce', 'AppliedBeforeDelivered', 'Quiescent'],
                                 properties=['NoRowAfterEnd', 'Termination'])
             res = tlc.run_tlc('Parallelize', cfg, allow_violation=False, timeout=7200)
@@ -61,10 +61,10 @@ def model(rep, t):
     return total
 
 
-def validate(rep, R, N, sel, traces):
+def validate(rep, R, N, sel, traces, fail=()):
     wd = tlc.workdir('c18t')
     tf = tlc.write_ndjson(os.path.join(wd, 'tr.ndjson'), [dict(ev=t['ev'], feeds=t['feeds'], fin=t['fin']) for t in traces])
-    cfg = tlc.write_cfg(os.path.join(wd, 'tr.cfg'), spec='TraceSpec', constants={'R': R, 'N': N, 'Sel': tla_set(sel)},
+    cfg = tlc.write_cfg(os.path.join(wd, 'tr.cfg'), spec='TraceSpec', constants={'R': R, 'N': N, 'Sel': tla_set(sel), 'Fail': tla_set(fail)},
                         constraints=['Progress'], postcondition='Report')
     res = tlc.run_tlc('ParallelizeTrace', cfg, workers=1, env={'TRACE_FILE': tf}, allow_violation=False, timeout=3000)
     rep.add_tlc(res, 'ParallelizeTrace R=%d N=%d Sel=%s: %d traces' % (R, N, tla_set(sel), len(traces)))
@@ -93,7 +93,7 @@ def real_runs(rep, t, r):
     k = 6 if t == 'quick' else 40
     specs = []
     for i in range(k):
-        R = r.choice([0, 1, 5, 17, 40])
+        R = r.choice([0, 1, 3, 5, 8])
         N = r.choice([1, 2, 3, 4])
         pat = r.choice(['none', 'all', 'odd', 'late'])
         specs.append(dict(R=R, N=N, pat=pat, seed=r.randrange(10 ** 6)))
@@ -111,9 +111,11 @@ def real_runs(rep, t, r):
     by = {}
     for sp, res in zip(specs, results + [None] * (len(specs) - len(results))):
         if res is None:
-            res = dict(delivered=[], applied=[], terminated=False)
+            res = dict(delivered=[], applied=[], terminated=False, ev=[])
         sel = [i for i in range(1, sp['R'] + 1) if (sp['pat'] == 'all' or (sp['pat'] == 'odd' and i % 2) or (sp['pat'] == 'late' and i == sp['R']))]
-        by.setdefault((sp['R'], sp['N'], tuple(sel)), []).append((sp, dict(ev=[], feeds=False, fin=res)))
+        by.setdefault((sp['R'], sp['N'], tuple(sel)), []).append((sp, dict(ev=res.get('ev', []), feeds=False,
+                                                                     fin=dict(delivered=res['delivered'], applied=res['applied'], terminated=res['terminated']))))
+    nreal_ev = 0
     for (R, N, sel), lst in by.items():
         verd = validate(rep, R, N, list(sel), [x[1] for x in lst])
         for (sp, tr), v in zip(lst, verd):
@@ -121,7 +123,12 @@ def real_runs(rep, t, r):
             rep.mark_distinct(dict(real=sp))
             if not v['rec_once']:
                 rep.violation(dict(real=sp), dict(real_multiprocessing_run=sp, outcome=tr['fin']), category='real-mp/%s' % sp['pat'])
+            elif v['matched'] != v['total'] or not v['inv'] or not v['end_ok']:
+                rep.model_drift('real multiprocessing run is not a behaviour of Parallelize.tla (matched %s/%s queue operations) although exactly-once holds'
+                                % (v['matched'], v['total']), dict(real=sp, events=tr['ev'][:40]))
+            nreal_ev += len(tr['ev'])
     rep.notes['real_multiprocessing_runs'] = len(specs)
+    rep.notes['real_multiprocessing_queue_operations_validated'] = nreal_ev
 
 
 def run():
@@ -134,16 +141,18 @@ def run():
     items = []
     for (R, N, sel, label) in configs(t):
         for i in range(per):
-            items.append(dict(R=R, N=N, sel=sel, seed=r.randrange(10 ** 9), strategy=['uniform', 'feeders_last', 'priority'][i % 3]))
+            # every fourth schedule: row_func raises on the first selected row (the row must still be delivered, once)
+            items.append(dict(R=R, N=N, sel=sel, seed=r.randrange(10 ** 9), strategy=['uniform', 'feeders_last', 'priority'][i % 3],
+                              fail_ids=sel[:1] if i % 4 == 3 else []))
     traces = pmap(sched.run_schedule, items, chunksize=8)
     errs = harness_errors(traces)
     if errs:
         raise tlc.MachineryError('harness error in scheduler: ' + errs[0])
     groups = {}
     for it, tr in zip(items, traces):
-        groups.setdefault((it['R'], it['N'], tuple(it['sel'])), []).append((it, tr))
-    for (R, N, sel), lst in sorted(groups.items()):
-        verd = validate(rep, R, N, list(sel), [x[1] for x in lst])
+        groups.setdefault((it['R'], it['N'], tuple(it['sel']), tuple(it['fail_ids'])), []).append((it, tr))
+    for (R, N, sel, fail), lst in sorted(groups.items()):
+        verd = validate(rep, R, N, list(sel), [x[1] for x in lst], fail)
         for (it, tr), v in zip(lst, verd):
             rep.count(1, traces=1)
             rep.mark_distinct(tr['ev'])
